@@ -130,6 +130,9 @@ func c07Event(t *rapid.T, label string, authors []string, n int) *mocrelay.Event
 	if rapid.Bool().Draw(t, label+"tag") {
 		e.Tags = append(e.Tags, mocrelay.Tag{"t", rapid.SampledFrom([]string{"x", "y"}).Draw(t, label+"tv")})
 	}
+	if rapid.IntRange(0, 2).Draw(t, label+"pauthor") == 0 {
+		e.Tags = append(e.Tags, mocrelay.Tag{"p", rapid.SampledFrom(authors).Draw(t, label+"pauthorv")})
+	}
 	if rapid.IntRange(0, 3).Draw(t, label+"ptag") == 0 {
 		e.Tags = append(e.Tags, rapid.SampledFrom(gen.ProtocolTags).Draw(t, label+"ptagv"))
 	}
@@ -142,7 +145,7 @@ func c07Filters(t *rapid.T, label string, authors []string) []*mocrelay.ReqFilte
 	var fs []*mocrelay.ReqFilter
 	for i := 0; i < n; i++ {
 		f := &mocrelay.ReqFilter{}
-		switch rapid.IntRange(0, 5).Draw(t, fmt.Sprintf("%sf%d", label, i)) {
+		switch rapid.IntRange(0, 6).Draw(t, fmt.Sprintf("%sf%d", label, i)) {
 		case 0:
 		case 1:
 			f.Kinds = []int64{1}
@@ -152,6 +155,9 @@ func c07Filters(t *rapid.T, label string, authors []string) []*mocrelay.ReqFilte
 			f.Authors = []string{rapid.SampledFrom(authors).Draw(t, fmt.Sprintf("%sf%da", label, i))}
 		case 4:
 			f.Tags = map[string][]string{"t": {rapid.SampledFrom([]string{"x", "y"}).Draw(t, fmt.Sprintf("%sf%dt", label, i))}}
+		case 6:
+			// two tag conditions: both must hold
+			f.Tags = map[string][]string{"t": {"x", "y"}, "p": {rapid.SampledFrom(authors).Draw(t, fmt.Sprintf("%sf%dp", label, i))}}
 		case 5:
 			f.Kinds = []int64{1}
 			f.Limit = gen.Ptr(int64(rapid.IntRange(0, 1).Draw(t, fmt.Sprintf("%sf%dl", label, i))))
@@ -1394,5 +1400,109 @@ func TestC07Scale(t *testing.T) {
 		}
 		col.Label("mode:scale-cycles")
 		col.Case(cycles > 256, hx.JSON(desc), func() any { return desc })
+	})
+}
+
+// TestC07SimultaneousPublishers: two (or three) publishers send one event each at the same
+// moment, with a small generated offset, to a subscriber that is idle; nothing else happens
+// afterwards. Every event must arrive all the same: a delivery must not depend on a later
+// event waking the connection up. Thousands of rounds per case, free-running.
+func TestC07SimultaneousPublishers(t *testing.T) {
+	col := ev.For("C07").SetRule(c07Rule)
+	rapid.Check(t, func(t *rapid.T) {
+		np := rapid.IntRange(2, 3).Draw(t, "publishers")
+		rounds := rapid.IntRange(1000, 4000).Draw(t, "rounds")
+		// the buffer holds a whole round: nothing is "beyond the configured buffer"
+		buflen := rapid.SampledFrom([]int{np, 4, 16}).Draw(t, "buflen")
+		twoTags := rapid.Bool().Draw(t, "tag_filter")
+		router := mocrelay.NewRouterHandler(buflen)
+		authors := gen.Pubkeys(3)
+		desc := map[string]any{"mode": "simultaneous publishers, idle subscriber", "publishers": np, "rounds": rounds, "buflen": buflen, "tag_filter": twoTags}
+		failf := func(sig, clause, obs string) {
+			hx.Fail(t, ev.Failure{Property: "C07", Signature: sig, Clause: clause, Case: desc, Observed: obs})
+		}
+		type conn struct {
+			recv chan mocrelay.ClientMsg
+			send chan mocrelay.ServerMsg
+		}
+		start := func() *conn {
+			c := &conn{recv: make(chan mocrelay.ClientMsg), send: make(chan mocrelay.ServerMsg)}
+			ctx, cancel := context.WithCancel(context.Background())
+			t.Cleanup(cancel)
+			go router.ServeNostr(ctx, c.send, c.recv)
+			return c
+		}
+		sub := start()
+		f := &mocrelay.ReqFilter{Kinds: []int64{1}}
+		if twoTags {
+			f = &mocrelay.ReqFilter{Tags: map[string][]string{"e": {gen.FakeID(1)}, "p": {authors[0]}}}
+		}
+		sub.recv <- &mocrelay.ClientReqMsg{SubscriptionID: "s", ReqFilters: []*mocrelay.ReqFilter{f}}
+		if _, is := (<-sub.send).(*mocrelay.ServerEOSEMsg); !is {
+			failf("no-eose", "every REQ is answered by EOSE", "first message is not EOSE")
+		}
+		pubs := make([]*conn, np)
+		for i := range pubs {
+			pubs[i] = start()
+		}
+		gates := make([]chan *mocrelay.Event, np)
+		acks := make(chan string, np)
+		for i := range pubs {
+			gates[i] = make(chan *mocrelay.Event)
+			go func(i int) {
+				for e := range gates[i] {
+					pubs[i].recv <- &mocrelay.ClientEventMsg{Event: e}
+					m := <-pubs[i].send
+					if o, is := m.(*mocrelay.ServerOKMsg); !is || !o.Accepted || o.EventID != e.ID {
+						acks <- "not an accepting OK: " + hx.JSON(briefServer(m))
+					} else {
+						acks <- ""
+					}
+				}
+			}(i)
+		}
+		defer func() {
+			for _, g := range gates {
+				close(g)
+			}
+		}()
+		for r := 0; r < rounds; r++ {
+			want := map[string]bool{}
+			evs := make([]*mocrelay.Event, np)
+			for i := range pubs {
+				e := &mocrelay.Event{Pubkey: authors[i], Kind: 1, CreatedAt: int64(r), Tags: []mocrelay.Tag{{"e", gen.FakeID(1)}, {"p", authors[0]}}, Content: fmt.Sprint("r", r, "p", i)}
+				gen.Seal(e)
+				evs[i] = e
+				want[e.ID] = true
+			}
+			// a different offset every round: the second publisher fires 0-40 spins after the first
+			spin := (r * 7) % 41
+			for i := range pubs {
+				gates[i] <- evs[i]
+				for k := 0; k < spin*i; k++ {
+					runtime.Gosched()
+				}
+			}
+			for range pubs {
+				if why := <-acks; why != "" {
+					failf("ok-wrong", "every EVENT is answered by an accepting OK", why)
+				}
+			}
+			for len(want) > 0 {
+				select {
+				case m := <-sub.send:
+					em, is := m.(*mocrelay.ServerEventMsg)
+					if !is || !want[em.Event.ID] || em.SubscriptionID != "s" {
+						failf("delivery-extra", "every open matching subscription receives a published event exactly once", fmt.Sprintf("round %d: %s", r, hx.JSON(briefServer(m))))
+					}
+					delete(want, em.Event.ID)
+				case <-time.After(2 * time.Second):
+					failf("delivery-missing", "every subscription that was open and matches receives the event (both publishers have their OK, the subscriber is idle and reading, nothing else is published)",
+						fmt.Sprintf("round %d of %d: %d of %d events not delivered within 2 s", r, rounds, len(want), np))
+				}
+			}
+		}
+		col.Label("mode:simultaneous-publishers")
+		col.Case(true, hx.JSON(desc), func() any { return desc })
 	})
 }
